@@ -96,6 +96,17 @@ func GenC07(seed, index uint64) *Workload {
 	for i := 0; i < nexpr; i++ {
 		w.Exprs = append(w.Exprs, specOf(GenExpr(r.Fork(100+uint64(i)), bias)))
 	}
+	if r.P(1, 120) {
+		// big data: one shared big document, expressions over its long arrays
+		w.Docs = []string{GenBigDoc(r.Fork(7), "T0")}
+		ndocs = 1
+		w.Exprs = nil
+		nexpr = 1 + r.Intn(2)
+		for i := 0; i < nexpr; i++ {
+			w.Exprs = append(w.Exprs, specOf(GenBigExpr(r.Fork(300+uint64(i)))))
+		}
+		ntasks = 2 + r.Intn(2)
+	}
 	nexpr = addTextVariants(r, w, nexpr)
 	storm := r.P(1, 10)
 	if storm {
@@ -127,6 +138,10 @@ func GenC07(seed, index uint64) *Workload {
 		}
 		var ops []Op
 		for k := 0; k < nops; k++ {
+			if storm && r.P(1, 6) {
+				ops = append(ops, Op{K: "churn", E: int(r.U64() % 1000), R: 40 + r.Intn(120)})
+				continue
+			}
 			e := r.Intn(nexpr)
 			op := Op{E: e, D: r.Intn(ndocs), Pol: randPolicy(r)}
 			switch {
@@ -161,6 +176,15 @@ func GenC06(seed, index uint64, maxOps int) *Workload {
 	nexpr := 1 + r.Intn(3)
 	for i := 0; i < nexpr; i++ {
 		w.Exprs = append(w.Exprs, specOf(GenExpr(r.Fork(100+uint64(i)), bias)))
+	}
+	if r.P(1, 150) {
+		w.Docs = []string{GenBigDoc(r.Fork(7), "H0"), GenBigDoc(r.Fork(8), "H1")}
+		ndocs = 2
+		w.Exprs = nil
+		nexpr = 1 + r.Intn(3)
+		for i := 0; i < nexpr; i++ {
+			w.Exprs = append(w.Exprs, specOf(GenBigExpr(r.Fork(300+uint64(i)))))
+		}
 	}
 	nexpr = addTextVariants(r, w, nexpr)
 	nops := 4 + r.Intn(maxOps-3)
@@ -199,6 +223,10 @@ func GenC06(seed, index uint64, maxOps int) *Workload {
 			op.R = r.Intn(nresults)
 			fed[docs] = true
 			docs++
+		case c == 16 && r.P(1, 8):
+			op.K = "churn"
+			op.E = int(r.U64() % 1000)
+			op.R = 130 + r.Intn(140)
 		case c <= 18:
 			d := r.Intn(docs)
 			if fed[d] {
@@ -217,6 +245,9 @@ func GenC06(seed, index uint64, maxOps int) *Workload {
 	}
 	w.Tasks = [][]Op{ops}
 	w.Sched = simrt.Schedule{Kind: simrt.StratExplicit, Seed: r.U64()}
+	if r.P(1, 3) {
+		w.Sched = simrt.Schedule{Kind: simrt.StratWalk, Seed: r.U64(), WalkDen: pick(r, []uint64{4, 16, 64})}
+	}
 	if r.P(1, 5) {
 		w.Sched.GCSteps = []uint64{uint64(r.Intn(3000))}
 	}
@@ -230,6 +261,10 @@ func GenC15(seed, index uint64) *Workload {
 	w.Docs = []string{GenDoc(r.Fork(1), "S", pick(r, []int{0, 0, 5}), pick(r, []int{0, 30}))}
 	bias := Bias{Enum: pick(r, []int{35, 60}), Lits: pick(r, []int{15, 40}), Fail: pick(r, []int{0, 4, 10}), Let: pick(r, []int{10, 25}), Unsafe: 5, Invalid: 1}
 	w.Exprs = []ExprSpec{specOf(GenExpr(r.Fork(2), bias))}
+	if r.P(1, 100) {
+		w.Docs = []string{GenBigDoc(r.Fork(3), "S")}
+		w.Exprs = []ExprSpec{specOf(GenBigExpr(r.Fork(4)))}
+	}
 	w.Policies = []simrt.Policy{
 		{Kind: simrt.PolSorted}, {Kind: simrt.PolReverse},
 		{Kind: simrt.PolRotate, Seed: uint64(1 + r.Intn(4))},
@@ -237,6 +272,11 @@ func GenC15(seed, index uint64) *Workload {
 		{Kind: simrt.PolNative},
 	}
 	w.Sched = simrt.Schedule{Kind: simrt.StratExplicit, Seed: r.U64()}
+	if r.P(1, 2) {
+		// only matters if the library starts goroutines of its own: they become
+		// simulated tasks and this walk decides how they interleave
+		w.Sched = simrt.Schedule{Kind: simrt.StratWalk, Seed: r.U64(), WalkDen: pick(r, []uint64{4, 16, 64})}
+	}
 	if r.P(1, 40) {
 		w.Note += " long-reuse"
 	}
